@@ -409,7 +409,7 @@ def rejection_matrix(out: dict[str, Any]) -> None:
 
 
 def plan(tier: str) -> dict[str, Any]:
-    n = 4000 if tier == "quick" else 200000
+    n = 8000 if tier == "quick" else 800000
     return {"cases": n, "budget_s": 90 if tier == "quick" else 1500, "min_per_shard": 50}
 
 
